@@ -250,6 +250,7 @@ def _observe(W, f):
            "classes": [type(v).__name__ for _, v in cols],
            "ndims": [int(getattr(v, "ndim", -1)) for _, v in cols],
            "lens": [int(len(v)) if getattr(v, "ndim", 0) >= 1 else -1 for _, v in cols]}
+    rep["readable"] = [len(v.tolist()) if getattr(v, "ndim", 0) == 1 else -1 for _, v in cols]    # the data can actually be read
     empty_attrs = set(dir(di.DataFrame()))
     attr = {}
     for p in C01_POOL:
@@ -268,8 +269,8 @@ def _mkvalue(W, spec):
     kind, n, v = spec
     if kind == "scalar": return v
     if kind == "list": return [v] * n
-    if kind == "array": return W.np.array([v] * n, dtype=float)
-    if kind == "column": return W.di.DataFrameColumn([v] * n, float)
+    if kind == "array": return W.np.array([v] * n, dtype=float) if isinstance(v, float) else W.di.Vector([v] * n)
+    if kind == "column": return W.di.DataFrameColumn([v] * n, float) if isinstance(v, float) else W.di.DataFrameColumn([v] * n)
     raise ValueError(kind)
 
 @op
@@ -1006,5 +1007,30 @@ def file_roundtrip(inp, W):
                      "xz" if head[:6] == bytes([0xfd, 0x37, 0x7a, 0x58, 0x5a, 0x00]) else "zip" if head[:2] == b"PK" else "none")
         back = getattr(cls, f"read_{fmt}")(path, **ropts)
         return {"codec": codec, "back": back, "recv": obj}
+    finally:
+        shutil.rmtree(d, ignore_errors=True)
+
+@op
+def geo_roundtrip(inp, W):
+    """GeoJSON.write followed by GeoJSON.read of the written file"""
+    import json, os, shutil, tempfile
+    di = W.di
+    data = inp["data"]
+    if W.sym:
+        from . import stubs
+        w = geo_write({"data": data, "metadata": inp.get("metadata", []), "indent": inp.get("indent")}, W)
+        if w["parsed"] is None:
+            raise ValueError("written file is not valid JSON: " + str(w["error"]))
+        mod = _geo_module(W)
+        with stubs.patched(mod, "json", stubs.JsonStub(mod.json, w["parsed"])), stubs.patched(mod.util, "xopen", lambda *a, **k: stubs.StubFile()):
+            back = di.GeoJSON.read("x.geojson")
+        return {"back": back}
+    for k, v in inp.get("metadata", []):
+        data.metadata[k] = v
+    d = tempfile.mkdtemp(prefix="vf_geo_")
+    try:
+        p = os.path.join(d, "x.geojson")
+        data.write(p)
+        return {"back": di.GeoJSON.read(p)}
     finally:
         shutil.rmtree(d, ignore_errors=True)
